@@ -1862,6 +1862,8 @@ class Model:
             msg = f"Surrogate '{name}' not found in model"
             raise KeyError(msg)
 
+        # The passed surrogate may be the stored object itself, remember its outputs
+        old_outputs = list(self._surrogates[name].outputs)
         if surrogate is None:
             surrogate = self._surrogates[name]
 
@@ -1874,7 +1876,7 @@ class Model:
             surrogate.stoichiometries = stoichiometries
 
         # Update ids
-        for i in self._surrogates[name].outputs:
+        for i in old_outputs:
             self._remove_id(name=i)
         for i in surrogate.outputs:
             self._insert_id(name=i, ctx="surrogate")
